@@ -3,6 +3,7 @@
 #include "iora/parsers/json.hpp"
 #include "replay_io.h"
 #include <cstring>
+#include <cerrno>
 using namespace iora::parsers;
 static long refNumberEnd(const std::string &t, size_t p) {
   size_t n = t.size(); auto dig = [&](size_t k) { return k < n && t[k] >= '0' && t[k] <= '9'; };
@@ -48,7 +49,10 @@ int main(int argc, char **argv) {
       std::string tok = t.substr(pos, (size_t)e - pos); bool fe = tok.find_first_of(".eE") != std::string::npos;
       if (fe && !o.isDouble()) replay_io::fail("A3 number with fraction or exponent is not a Double: token " + tok + (o.isInt() ? " -> Int " + std::to_string(o.getInt()) : ""));
       if (fe && o.getDouble() != strtod(tok.c_str(), nullptr)) replay_io::fail("value differs from strtod(token) for " + tok);
-      if (!fe && o.isInt() && o.getInt() != strtoll(tok.c_str(), nullptr, 10)) replay_io::fail("value differs from strtoll(token) for " + tok); } }
+      if (!fe) { errno = 0; long long ref = strtoll(tok.c_str(), nullptr, 10); bool fits = errno != ERANGE;
+        if (fits && !(o.isInt() && o.getInt() == ref)) replay_io::fail("N7 integer token " + tok + " must decode to Int " + std::to_string(ref));
+        if (!fits && !(o.isDouble() && o.getDouble() == strtod(tok.c_str(), nullptr)))
+          replay_io::fail("N7 integer token " + tok + " does not fit int64: must decode to the double strtod yields, got " + (o.isInt() ? "Int " + std::to_string(o.getInt()) : std::string("another value"))); } } }
   delete[] buf;
   replay_io::ok("contract clauses hold on this input");
   return 0;
